@@ -6,6 +6,7 @@ usage: ingest_round.py <prefix e.g. M5> <round number>"""
 import json, os, subprocess, sys, shutil, glob
 ROOT = os.path.dirname(os.path.dirname(os.path.abspath(__file__)))
 prefix, rnd = sys.argv[1], int(sys.argv[2])
+wdir = sys.argv[3] if len(sys.argv) > 3 else 'mut'   # agents' directories are /tmp/<wdir>_Cxx and /tmp/<wdir>_Cxx_out
 def sh(cmd, **kw):
     return subprocess.run(cmd, shell=True, stdout=subprocess.PIPE, stderr=subprocess.STDOUT, text=True, **kw).stdout
 sh('git -C /repo worktree add -q --detach /tmp/verify_mut HEAD')
@@ -13,7 +14,7 @@ stored = []
 for i in range(1, 15):
     pid = f'C{i:02d}'
     for v in 'AB':
-        src = f'/tmp/mut_{pid}_out/{v}'
+        src = f'/tmp/{wdir}_{pid}_out/{v}'
         demo = f'{src}/demo_c{i:02d}.rs'
         if not (os.path.exists(f'{src}/patch.diff') and os.path.exists(demo)):
             print('missing', src); continue
@@ -37,7 +38,7 @@ for i in range(1, 15):
                    'demo': f'demo_c{i:02d}.rs (drop into microscpi/tests/)'}, open(os.path.join(d, 'meta.json'), 'w'), indent=1)
         stored.append((sid, pid))
 for i in range(1, 15):
-    sh(f'git -C /repo worktree remove --force /tmp/mut_C{i:02d}; rm -rf /tmp/mut_C{i:02d}_out')
+    sh(f'git -C /repo worktree remove --force /tmp/{wdir}_C{i:02d}; rm -rf /tmp/{wdir}_C{i:02d}_out')
 sh('git -C /repo worktree remove --force /tmp/verify_mut; git -C /repo worktree prune')
 base = json.load(open(os.path.join(ROOT, 'seeded', 'results.json')))
 for sid, pid in stored:
